@@ -229,5 +229,5 @@ def run(prop, args):
             return any(p == b[1] for p, _, _ in _pair((c["n"], c["s"]))["viol"])
         small = C.shrink(w, fails)
         d = [d for p, _, d in _pair((small["n"], small["s"]))["viol"] if p == b[1]]
-        return small, (d[0] if d else "")
+        return (small, d[0]) if d else None      # None: not reproducible in isolation
     return rep.finish(shrink_fn=shrink)
